@@ -193,6 +193,9 @@ func VerifC04Race() {
 	verifrt.WaitAll()
 	_ = sawHealthy
 	verifrt.Assert(!bs[0].IsHealthy && bs[0].UnhealthyUntil.Equal(verifrt.Now().Add(time.Minute)), "an expiry check racing a fresh ejection never loses the ejection")
+	m := lb.metricsCollector.GetMetrics()
+	verifrt.Assert(!m.BackendMetrics[bs[0].Name].IsHealthy, "the metrics endpoint never reports an ejected backend as healthy (expiry check racing a fresh ejection)")
+	verifrt.Assert(!lb.ListBackends()[0].Healthy, "the admin API never reports an ejected backend as healthy (expiry check racing a fresh ejection)")
 	return
 }
 
